@@ -265,6 +265,12 @@ func (r *bufRun) get(c int) {
 		r.pendGet[c] = o
 		r.getStop[c] = cancel
 		r.instant([]int{15, c}, []int{9, 1}) // observed parked at a quiescent point
+		// a Get observed parked has not taken effect yet: its linearization point lies after this observation
+		r.mu.Lock()
+		if o.ret < 0 {
+			o.inv = tick()
+		}
+		r.mu.Unlock()
 		r.h.count("get_parked", 1)
 	} else {
 		cancel()
